@@ -1353,7 +1353,8 @@ class Message(ABC):
         self._serialized_on_wire = True
         proto_meta = self._betterproto
         read = 0
-        for parsed in load_fields(stream):
+        # a message of size 0 has no fields: nothing more may be read from the stream
+        for parsed in load_fields(stream) if size != 0 else ():
             field_name = proto_meta.field_name_by_number.get(parsed.number)
             if not field_name:
                 self._unknown_fields += parsed.raw
